@@ -559,6 +559,11 @@ def _writes_of(attr: str) -> List[str]:
             elif isinstance(n, ast.Delete):
                 tgts, kind = n.targets, "del"
             for t in tgts:
+                base_t = t
+                while isinstance(base_t, ast.Subscript):
+                    base_t = base_t.value
+                if isinstance(base_t, ast.Name) and where[n][1] is not None:
+                    continue        # a LOCAL variable of that name inside a function is not the attribute (class-level declarations are)
                 if hits(t):
                     sub = "[…]" if isinstance(t, ast.Subscript) else ""
                     out.add(f"{_site(rel, where[n])}:{attr}{sub} {kind}")
